@@ -19,6 +19,7 @@ contract, and the decoded genotypes are compared by the oracle.
 -/
 import Mathlib.Tactic.IntervalCases
 import TsdateVerif.Proofs.SplitGeno
+import TsdateVerif.Proofs.SplitMeta
 
 namespace Tsdate.C29
 open Tsdate Tsdate.Split
@@ -166,6 +167,98 @@ theorem split_flag_spec (bit : Nat) (flags : Array Nat) (hv : Valid N es ord) (h
   unfold outFlags
   rw [reorderCol_get _ _ v hlt, markSplit_get bit flags _
     (fun j hj => by rw [hf]; exact (split_mem excl hv j hj).1)]
+
+/-! ### Node metadata (`unsplit_node_id` "where possible")
+
+`rows` = the raw metadata rows of the input node table, `enc u` = row `u` decoded, given the key
+`unsplit_node_id = u` and re-encoded by the table's schema (`none` = the codec refuses: no schema, a
+struct schema without that field, a JSON schema that forbids it), `isEmpty`/`empty` = the empty row.
+The codec is tskit's and a parameter here; the harness supplies the real one. -/
+
+/-- **Every piece of every split node carries `unsplit_node_id` = its original id whenever the schema
+can store the key** (`enc` succeeds on all split nodes): the leftmost piece and all copies of a split
+node get the re-encoded row, every other node keeps its row — also when all input rows are empty. -/
+theorem split_nodes_carry_unsplit_id {β : Type} [Inhabited β] (isEmpty : β → Bool) (empty : β)
+    (hE : ∀ b, isEmpty b = true → b = empty) (rows : Array β) (enc : Nat → Option β)
+    (hv : Valid N es ord) (hrows : rows.size = N)
+    (hok : ∀ u ∈ (splitDisjoint N excl es ord).split, (enc u).isSome = true)
+    (v : Nat) (hlt : v < (splitDisjoint N excl es ord).order.length) :
+    (orig (splitDisjoint N excl es ord) v ∈ (splitDisjoint N excl es ord).split →
+      (outMetadata isEmpty empty rows (splitDisjoint N excl es ord).order
+        (extraMd enc (splitDisjoint N excl es ord).split))[v]? = enc (orig (splitDisjoint N excl es ord) v)) ∧
+    (orig (splitDisjoint N excl es ord) v ∉ (splitDisjoint N excl es ord).split →
+      (outMetadata isEmpty empty rows (splitDisjoint N excl es ord).order
+        (extraMd enc (splitDisjoint N excl es ord).split))[v]? =
+        some (aget rows (orig (splitDisjoint N excl es ord) v))) := by
+  have h := metadata_row excl isEmpty empty hE rows enc hv hrows v hlt
+  rw [okPrefix_all enc _ hok] at h
+  constructor
+  · intro hm
+    rw [h, if_pos hm]
+    obtain ⟨b, hb⟩ := Option.isSome_iff_exists.mp (hok _ hm)
+    rw [hb]; rfl
+  · intro hm
+    rw [h, if_neg hm]; rfl
+
+/-- **Where it is impossible nothing is touched**: if the codec refuses the first split node (and
+with no schema / a struct schema it refuses every node) the `try` ends at once and every output row
+is the original row of the node it was copied from (the code logs its warning). -/
+theorem metadata_kept_when_impossible {β : Type} [Inhabited β] (isEmpty : β → Bool) (empty : β)
+    (hE : ∀ b, isEmpty b = true → b = empty) (rows : Array β) (enc : Nat → Option β)
+    (hv : Valid N es ord) (hrows : rows.size = N)
+    (hfail : ∀ u us, (splitDisjoint N excl es ord).split = u :: us → enc u = none)
+    (v : Nat) (hlt : v < (splitDisjoint N excl es ord).order.length) :
+    (outMetadata isEmpty empty rows (splitDisjoint N excl es ord).order
+        (extraMd enc (splitDisjoint N excl es ord).split))[v]? =
+      some (aget rows (orig (splitDisjoint N excl es ord) v)) := by
+  have h := metadata_row excl isEmpty empty hE rows enc hv hrows v hlt
+  have hp : okPrefix enc (splitDisjoint N excl es ord).split = [] := by
+    cases hs : (splitDisjoint N excl es ord).split with
+    | nil => rfl
+    | cons u us => exact okPrefix_head_fail enc u us (hfail u us hs)
+  rw [hp] at h
+  rw [h]; simp
+
+/-- The general case: exactly the split nodes that the `try` loop reaches *before its first failure*
+(`okPrefix`) get the key. -/
+theorem metadata_rows_general {β : Type} [Inhabited β] (isEmpty : β → Bool) (empty : β)
+    (hE : ∀ b, isEmpty b = true → b = empty) (rows : Array β) (enc : Nat → Option β)
+    (hv : Valid N es ord) (hrows : rows.size = N) (v : Nat)
+    (hlt : v < (splitDisjoint N excl es ord).order.length) :
+    (outMetadata isEmpty empty rows (splitDisjoint N excl es ord).order
+        (extraMd enc (splitDisjoint N excl es ord).split))[v]? =
+      some ((if orig (splitDisjoint N excl es ord) v ∈ okPrefix enc (splitDisjoint N excl es ord).split
+              then enc (orig (splitDisjoint N excl es ord) v) else none).getD
+            (aget rows (orig (splitDisjoint N excl es ord) v))) :=
+  metadata_row excl isEmpty empty hE rows enc hv hrows v hlt
+
+/-- Full-strength reading of "unsplit_node_id where possible": *every* piece of a split node whose
+own row can take the key gets it. -/
+def metadata_where_possible_statement : Prop :=
+  ∀ (N : Nat) (excl : Array Bool) (es : Array (SEdge Nat)) (ord : List Nat) (rows : Array Nat)
+    (enc : Nat → Option Nat), Valid N es ord → rows.size = N →
+    ∀ v, v < (splitDisjoint N excl es ord).order.length →
+      orig (splitDisjoint N excl es ord) v ∈ (splitDisjoint N excl es ord).split →
+      (enc (orig (splitDisjoint N excl es ord) v)).isSome = true →
+      (outMetadata (fun b => b == 0) 0 rows (splitDisjoint N excl es ord).order
+        (extraMd enc (splitDisjoint N excl es ord).split))[v]? = enc (orig (splitDisjoint N excl es ord) v)
+
+def exEdges2 : Array (SEdge Nat) := #[⟨0, 2, 2, 0⟩, ⟨0, 2, 3, 1⟩, ⟨5, 7, 2, 0⟩, ⟨5, 7, 3, 1⟩]
+
+/-- **The full-strength statement is false of the code** (finding `unsplit-id-skipped-after-earlier-failure`):
+the `try` encloses the whole loop, so after the first split node whose row cannot take the key, later
+split nodes whose rows could take it are skipped too.  Witness: nodes 2 and 3 are both split, the
+codec refuses node 2 and accepts node 3 (→ 9); node 3 keeps its old row 0. -/
+theorem metadata_where_possible_false : ¬ metadata_where_possible_statement := by
+  intro h
+  have hval : Valid 4 exEdges2 [0, 1, 2, 3] := by
+    refine ⟨by decide, by decide, ?_, by decide, ?_, ?_⟩ <;>
+      (intro e he; have : e < 4 := he; interval_cases e <;> decide)
+  have := h 4 #[true, true, false, false] exEdges2 [0, 1, 2, 3] #[0, 0, 0, 0]
+    (fun u => if u = 3 then some 9 else none) hval rfl 3 (by decide +kernel) (by decide +kernel)
+    (by decide +kernel)
+  revert this
+  decide +kernel
 
 /-! ### Mutations (`_relabel_mutations_node`)
 
